@@ -173,12 +173,12 @@ def sym_norm(elems):
     # the norm is a function of its input: the same sum of squares (term-wise) on the same path gets the same symbol
     if not hasattr(E, 'norm_memo'):
         E.norm_memo = {}
-    key = tot.sexpr()
+    key = tot.get_id()              # z3 terms are hash-consed: structurally identical term <=> same ast (kept alive by the memo)
     if key in E.norm_memo:
-        return SV(E.norm_memo[key])
+        return SV(E.norm_memo[key][1])
     nu = E.fresh_real('nu')
     E.assume(z3.And(nu >= 0, nu * nu == tot))
-    E.norm_memo[key] = nu
+    E.norm_memo[key] = (tot, nu)
     return SV(nu)
 
 
@@ -209,12 +209,13 @@ def _H(a):
 
 
 def _memo_key(kind, a):
+    """z3 terms are hash-consed, so the ast id identifies the term while it is alive (the memo keeps the input array alive)"""
     parts = []
     for x in a.flat:
         if isinstance(x, SC):
-            parts.append((x.re.sexpr(), x.im.sexpr()))
+            parts.append((x.re.get_id(), x.im.get_id()))
         elif isinstance(x, SV):
-            parts.append(x.e.sexpr())
+            parts.append(x.e.get_id())
         else:
             parts.append(repr(x))
     return (kind, a.shape, tuple(parts))
@@ -231,27 +232,27 @@ def _memo(kind, a):
 def stub_svd(a):
     memo, key = _memo('svd', a)
     if key in memo:
-        return tuple(x.copy() for x in memo[key])
+        return tuple(x.copy() for x in memo[key][:-1])
     out = _stub_svd(a)
-    memo[key] = tuple(x.copy() for x in out)
+    memo[key] = tuple(x.copy() for x in out) + (a.copy(),)      # (input kept alive: ids stay valid)
     return out
 
 
 def stub_qr(a):
     memo, key = _memo('qr', a)
     if key in memo:
-        return tuple(x.copy() for x in memo[key])
+        return tuple(x.copy() for x in memo[key][:-1])
     out = _stub_qr(a)
-    memo[key] = tuple(x.copy() for x in out)
+    memo[key] = tuple(x.copy() for x in out) + (a.copy(),)      # (input kept alive: ids stay valid)
     return out
 
 
 def stub_eigh(a):
     memo, key = _memo('eigh', a)
     if key in memo:
-        return tuple(x.copy() for x in memo[key])
+        return tuple(x.copy() for x in memo[key][:-1])
     out = _stub_eigh(a)
-    memo[key] = tuple(x.copy() for x in out)
+    memo[key] = tuple(x.copy() for x in out) + (a.copy(),)      # (input kept alive: ids stay valid)
     return out
 
 
@@ -327,6 +328,34 @@ def _stub_eigh(a):
     return S, U
 
 
+def _input_kind(a, unpinned):
+    """'free': some entry contains a harness input symbol (engine-created symbols are named <prefix>!<n>);
+    'unpinnable': no symbol at all, or only engine symbols among which an output of an unpinnable decomposition; 'derived': otherwise"""
+    seen = set()
+    engine_syms = False
+    bad = False
+    for x in a.flat:
+        es = (x.re, x.im) if isinstance(x, SC) else ((x.e,) if isinstance(x, SV) else ())
+        stack = list(es)
+        while stack:
+            e = stack.pop()
+            k = e.get_id()
+            if k in seen:
+                continue
+            seen.add(k)
+            if z3.is_const(e) and e.decl().kind() == z3.Z3_OP_UNINTERPRETED:
+                if '!' not in e.decl().name():
+                    return 'free'
+                engine_syms = True
+                if k in unpinned:
+                    bad = True
+            else:
+                stack.extend(e.children())
+    if not engine_syms or bad:
+        return 'unpinnable'
+    return 'derived'
+
+
 def _pin(kind, a, **outs):
     """pinned rational witness (vacuity guard): record equations fixing the stub outputs to an exact rational
     decomposition (Householder reflectors, rational spectrum) and the input matrix to their product.  The runner checks at
@@ -334,6 +363,18 @@ def _pin(kind, a, **outs):
     E = core.ENG
     if not hasattr(E, 'pins'):
         E.pins = []
+    kind_in = _input_kind(a, getattr(E, 'unpinned', set()))
+    if kind_in == 'unpinnable':
+        # the matrix is a constant, or determined by the outputs of a decomposition of a constant: nothing can be pinned (the exact
+        # decomposition of a fixed rational matrix is not rational); the contract is satisfiable because the decomposition exists;
+        # such calls are not counted by the vacuity guard
+        if not hasattr(E, 'unpinned'):
+            E.unpinned = set()
+        for o in outs.values():
+            for x in o.flat:
+                for e in ((x.re, x.im) if isinstance(x, SC) else ((x.e,) if isinstance(x, SV) else ())):
+                    E.unpinned.add(e.get_id())
+        return
     import random
     rnd = random.Random(1000 + len(E.pins))
     cplx = any(isinstance(x, SC) for o in outs.values() for x in o.flat)
